@@ -235,8 +235,10 @@ type redirCase struct {
 	ask   bool
 }
 
-func movedTo(slot int, addr string) []byte { return []byte(fmt.Sprintf("-MOVED %d %s\r\n", slot, addr)) }
-func askTo(slot int, addr string) []byte   { return []byte(fmt.Sprintf("-ASK %d %s\r\n", slot, addr)) }
+func movedTo(slot int, addr string) []byte {
+	return []byte(fmt.Sprintf("-MOVED %d %s\r\n", slot, addr))
+}
+func askTo(slot int, addr string) []byte { return []byte(fmt.Sprintf("-ASK %d %s\r\n", slot, addr)) }
 
 func hasKey(args [][]byte, key string) bool {
 	for _, a := range args[1:] {
